@@ -195,6 +195,8 @@ class Controller:
         if dt is None:
             # use self.solver.info['dt'] if it is present
             dt = self.diagnostics["solver"].get("dt")
+        # adaptive steppers change `dt` during the run and land on interrupts exactly
+        adaptive = getattr(self.solver, "adaptive", False)
         # add absolute tolerance for time to account for inaccurate float point math
         if dt is None:  # self.solver.info['dt'] might be None
             # use conservative default values if time step is unknown
@@ -203,7 +205,11 @@ class Controller:
         else:
             # adapt tolerances to time step
             stepper_atol = 1e-6 * dt  # control loop termination and min advance
-            tracker_atol = 0.5 * dt  # allow firing within half a step of the interrupt
+            if adaptive:
+                # adaptive steppers stop exactly at the interrupt
+                tracker_atol = stepper_atol
+            else:
+                tracker_atol = 0.5 * dt  # allow firing within half a step
 
         # evolve the system from t_start to t_end
         t = t_start
@@ -230,7 +236,7 @@ class Controller:
                 # update the tolerances to reflect changes in time step `dt`
                 if dt := self.diagnostics["solver"].get("dt"):
                     stepper_atol = 1e-6 * dt
-                    tracker_atol = 0.5 * dt
+                    tracker_atol = stepper_atol if adaptive else 0.5 * dt
 
         except StopIteration as err:
             # iteration has been interrupted by a tracker
